@@ -98,7 +98,7 @@ def src_pairs_for_extend(spec: list[typing.Any], other: Model) -> list[tuple[str
     kind = spec[0]
     if kind == "hd":
         return other.lines()
-    if kind in ("dict", "keys", "keysiter"):
+    if kind in ("dict", "keys", "keysiter", "dictitems"):
         d: dict[str, str] = {}
         for k, v in spec[1]:
             d[k] = v
@@ -123,7 +123,19 @@ def build_src(spec: list[typing.Any], other_obj: typing.Any) -> typing.Any:
         return KeysObj(spec[1])
     if kind == "keysiter":
         return KeysIterObj(spec[1])
-    return [(k, v) for k, v in spec[1]]
+    pairs = [(k, v) for k, v in spec[1]]
+    # one-shot and other plain iterables of pairs: whatever looks at the operand before merging it must not use it up
+    if kind == "iter":
+        return iter(pairs)
+    if kind == "gen":
+        return (p for p in pairs)
+    if kind == "zip":
+        return zip([k for k, _ in pairs], [v for _, v in pairs])
+    if kind == "tuple":
+        return tuple(pairs)
+    if kind == "dictitems":
+        return {k: v for k, v in pairs}.items()
+    return pairs
 
 
 # ---------------------------------------------------------------- observation -----------------
@@ -405,6 +417,11 @@ def op_alphabet(names: list[str], values: list[str], small: bool) -> list[list[t
         ops += [["extend", s], ["update", s]]
     ops += [["ior", srcs[1]], ["ior", srcs[2]], ["or", srcs[0]], ["or", srcs[2]], ["ror", srcs[0]], ["ror", srcs[1]], ["ctor", srcs[1]], ["ctor", srcs[2]], ["copy"], ["swap"]]
     if not small:
+        for kind in ("iter", "gen", "zip", "tuple", "dictitems"):
+            one = [kind, [[n1, v0], [n0, v1], [n1, v1]]]
+            ops += [["extend", one], ["ior", one], ["or", one], ["ctor", one], ["update", one]]
+            if kind != "dictitems":  # (dict_items has a set-union | of its own, which Python tries first)
+                ops.append(["ror", one])
         ki = ["keysiter", [[n2, v0], [n1, v1]]]
         ops += [["extend", ki], ["ior", ki], ["or", ki], ["ctor", ki], ["update", ki]]
         ops += [["popd", n] for n in names] + [["clear"], ["ior", srcs[0]], ["ior", srcs[3]], ["or", srcs[1]], ["or", srcs[3]], ["ror", srcs[3]], ["ctor", srcs[0]], ["ctor", srcs[3]]]
@@ -419,7 +436,7 @@ def random_op(rng: typing.Any) -> list[typing.Any]:
         return typing.cast(str, rng.choice(VALUES))
 
     def src() -> list[typing.Any]:
-        k = rng.choice(["dict", "pairs", "hd", "keys", "pairs", "hd", "keysiter"])
+        k = rng.choice(["dict", "pairs", "hd", "keys", "pairs", "hd", "keysiter", "iter", "gen", "zip", "tuple", "dictitems"])
         if k == "hd":
             return ["hd"]
         return [k, [[n(), v()] for _ in range(rng.randint(0, 4))]]
@@ -454,7 +471,10 @@ def random_op(rng: typing.Any) -> list[typing.Any]:
     if k < 0.83:
         return ["or", src()]
     if k < 0.87:
-        return ["ror", [s for s in [src()] if True][0]]
+        s_ = src()
+        while s_[0] == "dictitems":  # dict_items | x is Python's own set union
+            s_ = src()
+        return ["ror", s_]
     if k < 0.91:
         return ["ctor", src()]
     if k < 0.95:
